@@ -671,6 +671,12 @@ psResSize_t calcCkeSize(ssl_t *ssl)
 #   ifdef USE_ECC_CIPHER_SUITE
         if (ssl->cipher->type == CS_ECDH_ECDSA || ssl->cipher->type == CS_ECDH_RSA)
         {
+            if (ssl->sec.cert == NULL)
+            {
+                /* No server certificate (e.g. a flight rebuilt in a resumed
+                   handshake): there is no ClientKeyExchange to size. */
+                return MATRIXSSL_ERROR;
+            }
             ckeSize = (ssl->sec.cert->publicKey.key.ecc.curve->size * 2) + 2;
         }
 #   endif /* USE_ECC_CIPHER_SUITE */
